@@ -85,8 +85,20 @@ def gen_history(tier, seed):
                 lines.append(f"{op} ${h} ${a} " + (f"${b}" if r.random() < 0.8 else f"n:{r.randint(1, 3)}"))
                 cnt(op); result_fresh = h
             elif roll < 0.36:
-                op = r.choice(["neg", "abs", "copy", "sign"])
-                lines.append(f"{op} ${h} ${a}"); cnt(op); result_fresh = h
+                op = r.choice(["neg", "abs", "absm", "copy", "sign", "absi", "signi", "radd0"])
+                if op in ("absi", "signi"):
+                    # in place on one array; later out-of-place calls must not touch it
+                    lines.append(f"{op} ${a}"); cnt(op)
+                    lines.append("dumpall")
+                    # an out-of-place call of the same kind on another array of the same shape
+                    lines.append(f"mul ${h} ${a} n:3"); lines.append("dumpall")
+                    lines.append(f"{'absm' if op == 'absi' else 'sign'} ${h + 1} ${h}"); lines.append("dumpall")
+                    nxt[1] += 2
+                    continue
+                if op == "radd0":
+                    lines.append(f"radd ${h} ${a} n:0"); cnt(op); result_fresh = h
+                else:
+                    lines.append(f"{op} ${h} ${a}"); cnt(op); result_fresh = h
             elif roll < 0.46:
                 keep = r.sample(la, r.randint(0, len(la))) if r.random() < 0.8 else [r.choice("abcde")]
                 op = r.choice(["sumto", "sumover"])
